@@ -796,10 +796,18 @@ def run(ctx, rep):
             if kind == "orig":
                 base = res
 
+    import time
+    t0 = time.time()
+    rep.extra["phase_s"] = {"drive+oracle": round(t0 - ctx.t0, 1)}
     bad_c = vlib.run_shards(ctx, rep, "const", HEADER, "check_const", ccases, shard=60) if ccases else []
+    rep.extra["phase_s"]["shards_const"] = round(time.time() - t0, 1); t0 = time.time()
     bad_g = vlib.run_shards(ctx, rep, "geom", HEADER, "check_geom", gcases, shard=12) if gcases else []
+    rep.extra["phase_s"]["shards_geom"] = round(time.time() - t0, 1); t0 = time.time()
     bad_r = vlib.run_shards(ctx, rep, "resolve", HEADER, "check_resolve", rcases, shard=10) if rcases else []
+    rep.extra["phase_s"]["shards_resolve"] = round(time.time() - t0, 1); t0 = time.time()
     coverage_flags(ctx, rep, gcases, gmeta)
+    rep.extra["phase_s"]["geom_coverage"] = round(time.time() - t0, 1)
+    rep.extra["case_counts"] = {"const": len(ccases), "geom": len(gcases), "resolve": len(rcases)}
 
     # ---------------------------------------------------------------- verdict on broken obligations
     if not tables_ok:
